@@ -8,6 +8,7 @@ the lines it prints (`PrintT`), and maps its outcome onto three values:
 """
 import json
 import os
+import uuid
 import re
 import shutil
 import subprocess
@@ -165,7 +166,7 @@ def run_tlc(
     extra: Sequence[str] = (),
 ) -> TLCResult:
     """Run TLC on wd/module.tla (cfg wd/module.cfg); modules of /verif/spec are on the library path."""
-    meta = os.path.join(wd, "meta-%s-%d" % (module, int(time.time() * 1000) % 10**9))
+    meta = os.path.join(wd, "meta-%s-%s" % (module, uuid.uuid4().hex))  # unique: several JVMs share wd
     cmd = ["java", "-XX:+UseParallelGC", "-Xmx" + heap, "-Xss32m", "-DTLA-Library=" + SPEC]
     if deque:
         cmd.append("-Dtlc2.tool.queue.IStateQueue=StateDeque")
